@@ -191,6 +191,8 @@ var quickPre = []preState{
 	{h("W:4:8 SnapU W:0:32 SnapA"), true, false},
 	// member 1 (s2) holds no block that member 2 (s3) lacks: ReplaceDisk(s2 <- s3) needs no coalesce
 	{h("W:0:8 SnapA SnapA W:0:8 SnapA W:8:8 SnapU"), false, false},
+	// ReplaceDisk whose target is the base snapshot (reads of never-written blocks end in the base file)
+	{h("SnapA SnapA SnapU"), false, false},
 	// a revert to an inner member leaves a newer USER snapshot (s3) behind as an orphan hanging off an automatic one
 	{h("W:0:8 SnapA W:8:8 SnapA W:0:8 SnapU W:16:8 Revert:1 W:8:8"), false, false},
 	{h("W:0:8 SnapA W:8:8 SnapA W:0:8 SnapU W:16:8 Revert:1 SnapU"), false, false},
